@@ -279,3 +279,8 @@ row_frame_drop = row_frame
 fill_only_missing = column_has_present = row_frame
 next_days = next_seconds = is_last_row = row_frame
 median_of = set_inferred_freq = series_kind = series_val = series_member = row_frame
+
+
+def global_rng_draws():
+    """native side: number of draws is not observable; replay compares results instead"""
+    return 0
